@@ -498,13 +498,8 @@ func judge(res *recoverResult, keysOf []vlib.Str, runs []crashlib.Run, followup 
 	if len(inflight) > 0 {
 		classes["inflight_txn_at_crash"] = true
 	}
-	for idx, t := range inflight {
-		later := map[int]bool{}
-		for _, u := range inflight[idx+1:] {
-			for k := range u.Final() {
-				later[k] = true
-			}
-		}
+	for _, t := range inflight {
+		later := crashlib.LaterKeys(runs, t.No)
 		prev := expectWithout(len(keysOf), runs, t.No)
 		if len(t.Final()) >= 2 {
 			classes["inflight_multi_key_txn"] = true
@@ -716,7 +711,7 @@ func (p *pipeline) runCase(c Case, fatal func(string, ...any)) {
 				pl.job.AckPath = filepath.Join(base, fmt.Sprintf("fack-%d.log", id+1))
 			}
 			add(pl)
-			if p.prop == "C03" && nestedAt[i] && !c.Huge {
+			if (p.prop == "C03" || p.prop == "C04") && nestedAt[i] && !c.Huge {
 				n := &planned{im: im, runs: []crashlib.Run{run1}, cls: map[string]bool{}, origin: "snapshot", nested: true, followup: c.Followup}
 				n.job.SrcDir = im.dir
 				n.job.Workload.Txns = c.Followup
